@@ -278,7 +278,7 @@ func verifyAll(L *Loaded, sel func(c *Contract) bool, workDir string, timeout ti
 	for i := range jobs {
 		idx = append(idx, i)
 	}
-	short := 12 * time.Second
+	short := 25 * time.Second
 	if timeout < short {
 		short = timeout
 	}
